@@ -445,15 +445,15 @@ Definition head_ok (h : head) : Prop :=
   end.
 
 (* per scenario: the repair is in, or the pinned tree's hypotheses hold *)
-Definition scen_hyp (repaired : bool) (sc : scenario) : Prop :=
-  repaired = true \/ (forallb stream_wf (sc_streams sc) = true /\ all_supported sc = true).
+Definition scen_hyp (rp : repairs) (sc : scenario) : Prop :=
+  rep_tracks rp = true \/ (forallb stream_wf (sc_streams sc) = true /\ all_supported sc = true).
 
-Lemma stream_head_spec : forall repaired sc isLeading r,
-  scen_hyp repaired sc ->
-  is_panic (stream_head repaired sc isLeading r) = false /\
-  forall h, stream_head repaired sc isLeading r = Ok h -> head_ok h.
+Lemma stream_head_spec : forall rp sc isLeading r,
+  scen_hyp rp sc ->
+  is_panic (stream_head rp sc isLeading r) = false /\
+  forall h, stream_head rp sc isLeading r = Ok h -> head_ok h.
 Proof.
-  intros repaired sc isLeading r H. unfold stream_head.
+  intros rp sc isLeading r H. unfold stream_head. set (repaired := rep_tracks rp) in *.
   destruct (nth_error (sc_streams sc) _) as [s|] eqn:N; [|split; [reflexivity|discriminate]].
   apply nth_error_In in N.
   destruct s as [f|t].
@@ -474,28 +474,28 @@ Proof.
     split; [reflexivity|]. intros h Eh. inversion Eh; subst. reflexivity.
 Qed.
 
-Lemma stream_head_noof : forall repaired sc isLeading r, is_oof (stream_head repaired sc isLeading r) = false.
+Lemma stream_head_noof : forall rp sc isLeading r, is_oof (stream_head rp sc isLeading r) = false.
 Proof.
   intros. unfold stream_head. destruct (nth_error _ _) as [[f|t]|]; auto.
   - apply bind_noof; [apply fmp4_run_head_noof|]. intros [[lead ts] init] _. auto.
   - destruct (tst_segs t); auto. apply bind_noof; [apply ts_initializeReader_noof|]. intros [lead ts] _; auto.
 Qed.
 
-Lemma heads_spec : forall repaired sc refs,
-  scen_hyp repaired sc ->
-  is_panic (heads repaired sc refs) = false /\ forall hs, heads repaired sc refs = Ok hs -> Forall head_ok hs.
+Lemma heads_spec : forall rp sc refs,
+  scen_hyp rp sc ->
+  is_panic (heads rp sc refs) = false /\ forall hs, heads rp sc refs = Ok hs -> Forall head_ok hs.
 Proof.
-  intros repaired sc refs H. induction refs as [|[isL r] rest IH]; cbn.
+  intros rp sc refs H. induction refs as [|[isL r] rest IH]; cbn.
   - split; [reflexivity|]. intros hs E. inversion E. constructor.
-  - destruct (stream_head_spec repaired sc isL r H) as [N S].
-    destruct (stream_head repaired sc isL r) as [h| | |]; cbn [bind]; try (split; [auto|discriminate]).
-    destruct IH as [N2 S2]. destruct (heads repaired sc rest) as [hs| | |]; cbn [bind]; try (split; [auto|discriminate]).
+  - destruct (stream_head_spec rp sc isL r H) as [N S].
+    destruct (stream_head rp sc isL r) as [h| | |]; cbn [bind]; try (split; [auto|discriminate]).
+    destruct IH as [N2 S2]. destruct (heads rp sc rest) as [hs| | |]; cbn [bind]; try (split; [auto|discriminate]).
     split; [reflexivity|]. intros hs' E. inversion E; subst. constructor; auto.
 Qed.
 
-Lemma heads_noof : forall repaired sc refs, is_oof (heads repaired sc refs) = false.
+Lemma heads_noof : forall rp sc refs, is_oof (heads rp sc refs) = false.
 Proof.
-  intros repaired sc refs. induction refs as [|[isL r] rest IH]; cbn; auto.
+  intros rp sc refs. induction refs as [|[isL r] rest IH]; cbn; auto.
   apply bind_noof; [apply stream_head_noof|]. intros. apply bind_noof; auto.
 Qed.
 
@@ -542,15 +542,15 @@ Proof.
   destruct (run_head h c el) as [[[c' counts] n]| | |]; cbn; auto.
 Qed.
 
-Lemma client_run_gen_np : forall repaired sc el,
-  structural_ok (sc_primary sc) = true -> scen_hyp repaired sc ->
-  is_panic (o_end (client_run_gen repaired sc el)) = false.
+Lemma client_run_gen_np : forall rp sc el,
+  structural_ok (sc_primary sc) = true -> scen_hyp rp sc ->
+  is_panic (o_end (client_run_gen rp sc el)) = false.
 Proof.
-  intros repaired sc el Hst H. unfold client_run_gen.
+  intros rp sc el Hst H. unfold client_run_gen.
   pose proof (primary_streams_np _ Hst) as NP.
   destruct (primary_streams (sc_primary sc)) as [refs| | |]; cbn; auto.
-  destruct (heads_spec repaired sc refs H) as [NH SH].
-  destruct (heads repaired sc refs) as [hs| | |]; cbn; auto.
+  destruct (heads_spec rp sc refs H) as [NH SH].
+  destruct (heads rp sc refs) as [hs| | |]; cbn; auto.
   destruct (List.concat (map head_tracks hs)); cbn; auto.
   destruct (sc_onTracksErr sc); cbn; auto.
   pose proof (run_heads_np hs None el [] 0 (SH _ eq_refl) I) as R.
@@ -564,18 +564,24 @@ Proof.
   apply client_run_gen_np; auto. right. auto.
 Qed.
 
-(* with the proposed repair the full statement holds: no hypothesis on the media content at all *)
-Theorem client_run_fixed_np : forall sc el,
-  structural_ok (sc_primary sc) = true -> is_panic (o_end (client_run_fixed sc el)) = false.
+(* with the proposed repair of findings 1 and 2 the full statement holds: no hypothesis on the
+   media content at all (whether or not the repair of finding 3 is in) *)
+Theorem client_run_repaired_np : forall rp sc el,
+  rep_tracks rp = true -> structural_ok (sc_primary sc) = true ->
+  is_panic (o_end (client_run_gen rp sc el)) = false.
 Proof. intros. apply client_run_gen_np; auto. left. auto. Qed.
 
-Lemma client_run_gen_noof : forall repaired sc el, is_oof (o_end (client_run_gen repaired sc el)) = false.
+Theorem client_run_fixed_np : forall sc el,
+  structural_ok (sc_primary sc) = true -> is_panic (o_end (client_run_fixed sc el)) = false.
+Proof. intros. apply client_run_repaired_np; auto. Qed.
+
+Lemma client_run_gen_noof : forall rp sc el, is_oof (o_end (client_run_gen rp sc el)) = false.
 Proof.
-  intros repaired sc el. unfold client_run_gen.
+  intros rp sc el. unfold client_run_gen.
   pose proof (primary_streams_noof (sc_primary sc)) as NP.
   destruct (primary_streams (sc_primary sc)) as [refs| | |]; cbn; auto.
-  pose proof (heads_noof repaired sc refs) as NH.
-  destruct (heads repaired sc refs) as [hs| | |]; cbn; auto.
+  pose proof (heads_noof rp sc refs) as NH.
+  destruct (heads rp sc refs) as [hs| | |]; cbn; auto.
   destruct (List.concat (map head_tracks hs)); cbn; auto.
   destruct (sc_onTracksErr sc); cbn; auto.
   pose proof (run_heads_noof hs None el [] 0) as R.
@@ -668,3 +674,30 @@ Lemma repaired_on_witnesses :
                                 {| it_id := 2; it_timescale := 48000; it_codec := FAC3 |}] [1; 2]) 0 =
     {| o_tracks := Some [Some GH264]; o_counts := [[1%nat]]; o_decodeErrors := 0; o_end := Ok tt |}.
 Proof. vm_compute. auto. Qed.
+
+(* third finding (a wedge, not a panic): a VALID stream - one supported track, twelve parts in one
+   segment - parks the stream processor for ever: the 11th finished entry cannot deposit its token
+   (the buffer of chPartTrackProcessed holds 10 and is only read after all pushes), so its
+   processor never takes the 12th entry. Eleven parts still play. *)
+Definition many_parts (n : nat) : scenario :=
+  {| sc_primary := vod_media;
+     sc_streams := [SF {| fs_init := Some [{| it_id := 1; it_timescale := 90000; it_codec := FH264 |}];
+                          fs_segs := [{| fg_dateTime := None;
+                                         fg_parts := Some (map (fun k => [{| pt_id := 1; pt_baseTime := Z.of_nat k * 900;
+                                                                             pt_samples := [one_sample] |}]) (seq 0 n)) |}] |}];
+     sc_onTracksErr := false |}.
+
+Lemma wedge_witness : exists sc el,
+  mc_wf sc = true /\ all_supported sc = true /\ o_end (client_run sc el) = Err EBlocked.
+Proof. exists (many_parts 12), 0. vm_compute. auto. Qed.
+
+Lemma eleven_parts_play :
+  client_run (many_parts 11) 0 =
+    {| o_tracks := Some [Some GH264]; o_counts := [[11%nat]]; o_decodeErrors := 0; o_end := Ok tt |}.
+Proof. vm_compute. auto. Qed.
+
+Lemma repaired_many_parts :
+  client_run_fixed (many_parts 12) 0 =
+    {| o_tracks := Some [Some GH264]; o_counts := [[12%nat]]; o_decodeErrors := 0; o_end := Ok tt |}.
+Proof. vm_compute. auto. Qed.
+
